@@ -46,13 +46,81 @@ def report(ctx, what, replay):
 
 # ------------------------------------------------------------------ generators
 TYPE_CHARS = 'ABCDEFGHIJKLMNOPQRSTUVWXYZabcdefghijklmnopqrstuvwxyz0123456789'
+# FIX String / char: every ASCII character except SOH (the field delimiter) is a value character — line feed, carriage return, tab,
+# NUL, the other C0 controls, DEL, '=' and spaces at either end included.  `valid_values` (the quantifier) and the model's `wfText`
+# say exactly this; the generator has to reach all of it, in header, body, trailer and group instances at every depth.
+SPECIALS = ['\n', '\r', '\r\n', '\t', '\x0b', '\x0c', '\x00', '\x02', '\x1c', '\x1d', '\x1e', '\x1f', '\x7f', ' ', '  ', '=', '==',
+            '35=', '\n35=A', '10=', '\n\n', ' \n', '\n ']
+VALUE_CHARS = ''.join(chr(c) for c in range(128) if c != 1)
+
+
+def gen_string_fix(rng, ty):
+    if ty == 'char':
+        c = rng.random()
+        if c < 0.55:
+            return rng.choice(fc.PRINTABLE)
+        if c < 0.9:
+            return rng.choice(VALUE_CHARS)
+        return rng.choice(['', 'ab', '=', '\r\n', '\n'])
+    c = rng.random()
+    if c < 0.1:
+        return ''
+    if c < 0.25:
+        return rng.choice(['=', 'a=b', '35=X', '==', '10=000', '8=FIX', 'x=', '=y', '9=12', ' ', ' a ', '\t', '\x02', '\x7f', '\n', '\r\n',
+                           'a35=b', '35=', 'line1\nline2', 'line1\r\nline2\r\n', '\nx', 'x\n', ' lead', 'trail ', '\ta\t', '\x00'])
+    if c < 0.45:        # printable runs with line breaks / control characters / '=' / blanks at the start, in the middle, at the end
+        parts = []
+        for _ in range(rng.randint(1, 4)):
+            parts.append(rng.choice(SPECIALS) if rng.random() < 0.6 else ''.join(rng.choice(fc.PRINTABLE) for _ in range(rng.randint(1, 6))))
+        if not any(p in SPECIALS for p in parts):
+            parts.insert(rng.randint(0, len(parts)), rng.choice(SPECIALS))
+        return ''.join(parts)
+    if c < 0.55:        # any value character, uniformly
+        return ''.join(rng.choice(VALUE_CHARS) for _ in range(rng.randint(1, 10)))
+    n = rng.randint(1, 12) if c < 0.93 else rng.randint(13, 60)
+    return ''.join(rng.choice(fc.PRINTABLE) for _ in range(n))
+
+
+def use_fix_strings():
+    """switch the shared value generator (fix_common.gen_prim -> gen_string) to the full FIX value alphabet — in this process only
+    (C14 keeps the printable profile: its frames are cut by a line-oriented reader of the harness)"""
+    fc.gen_string = gen_string_fix
+
+
+def tag_ending_in_35(rng, used):
+    while True:
+        t = rng.choice([135, 235, 335, 435, 535, 635, 735, 835, 935, 1035, 1135, 3535, 9935, 10035, 35035, 13535, rng.randint(1, 999) * 100 + 35])
+        if t not in used and t not in fc.STD_TAGS:
+            used.add(t)
+            return t
+
+
+def retag(entries, rng, pool, p):
+    """give some entries (fields, group count fields, nested ones) a tag whose decimal text ends in `35`"""
+    out = []
+    for e in entries:
+        t = tag_ending_in_35(rng, pool.used) if rng.random() < p else e[1]
+        out.append(('f', t, e[2], e[3]) if e[0] == 'f' else ('g', t, e[2], retag(e[3], rng, pool, p / 2)))
+    return out
 
 
 def gen_dictionary(rng, allow_float=True, overlap=False):
     pool = fc.TagPool(rng)
     depth = rng.choice([0, 1, 1, 2, 2, 3])
-    hdr = [('f', 35, 'string', True)] + fc.gen_entries(rng, pool, rng.randint(0, 3), min(depth, 1), allow_float)
-    if rng.random() < 0.3:
+    rest = fc.gen_entries(rng, pool, rng.randint(0, 3), min(depth, 1), allow_float)
+    flavour = rng.random()
+    if flavour < 0.3:
+        # entries in front of MsgType whose tags end in 35 (135=…), string entries (their values may contain `35=`): the MsgType lookup
+        # must find the field, not the text
+        rest = retag(rest, rng, pool, 0.6)
+        if rng.random() < 0.5:
+            rest.insert(rng.randint(0, len(rest)), ('f', tag_ending_in_35(rng, pool.used), rng.choice(['string', 'int', 'char']), rng.random() < 0.5))
+        if rng.random() < 0.5:
+            rest.insert(rng.randint(0, len(rest)), ('f', pool.fresh(), 'string', rng.random() < 0.5))
+    hdr = [('f', 35, 'string', True)] + rest
+    if flavour < 0.3:
+        hdr = rest + [('f', 35, 'string', True)] if rng.random() < 0.6 else hdr
+    if rng.random() < 0.4:
         rng.shuffle(hdr)
     trl = fc.gen_entries(rng, pool, rng.randint(0, 3), min(depth, 1), allow_float)
     types = set()
@@ -97,7 +165,7 @@ def gen_assignments(rng, d):
     """assignment lists (header, body, trailer) of a well-formed message"""
     rest = [e for e in d['hdr'] if e[1] != 35]
     h = fc.gen_seg(rng, rest)
-    pos = 0 if rng.random() < 0.75 else rng.randint(0, len(h))
+    pos = 0 if rng.random() < 0.5 else rng.randint(0, len(h))        # MsgType assigned first, or anywhere in the header
     h.insert(pos, (35, ('s', d['type'])))
     b = fc.gen_seg(rng, d['body'])
     t = fc.gen_seg(rng, d['trl'])
@@ -326,6 +394,28 @@ def offset_of_msgtype(d, m):
     return None
 
 
+def text_classes(seg, depth=0):
+    """which kinds of text a segment value contains (for the input distribution): line feeds, other control characters, …"""
+    out = set()
+    for _t, v in seg:
+        if v[0] == 'grp':
+            for inst in v[1]:
+                out |= {c if c.startswith('group:') else 'group:' + c for c in text_classes(inst, depth + 1)}
+        elif v[0] == 's' and _t != 35:
+            x = v[1]
+            if '\n' in x:
+                out.add('LF')
+            if '\r' in x:
+                out.add('CR')
+            if any(ord(c) < 32 and c not in '\n\r' for c in x) or '\x7f' in x:
+                out.add('other-control')
+            if '=' in x:
+                out.add('equals')
+            if x != x.strip(' ') and x.strip(' '):
+                out.add('edge-blank')
+    return out
+
+
 def valid_values(entries, seg):
     """right Python type for the field, text ASCII without SOH, floats finite with a round-tripping repr"""
     for t, v in seg:
@@ -360,9 +450,10 @@ def in_domain(d, m):
         return False
     if not py_wf(d, m) or not all(valid_values(d[s], m[s]) for s in ('hdr', 'body', 'trl')):
         return False
-    ref = fc.ref_encode(d, m)
-    off = offset_of_msgtype(d, m)
-    return off is not None and ref.find(b'35=') == off
+    # the header holds MsgType = the class's type, at any position (since /repo a2cfe01 the lookup is anchored at a field start:
+    # Props/C13Anchor.lean `C13_statement_any_order`; fields in front of it may have tags ending in 35 and values containing `35=`)
+    e35 = fc.find_entry(d['hdr'], 35)
+    return e35 is not None and e35[0] == 'f' and e35[2] == 'string' and (35, ('s', d['type'])) in m['hdr']
 
 
 def oracle_rt(ctx, d, m, msg, r, rep):
@@ -481,6 +572,17 @@ def shrink_candidates(d, m):
                     m2 = copy.deepcopy(m)
                     follow(m2[s], path)[i] = (t, ('s', 'a'))
                     yield d, m2
+                    if len(v[1]) > 1:
+                        for ch in sorted(set(v[1]) - set(fc.PRINTABLE.replace('=', '').replace(' ', ''))):      # one special character alone
+                            m2 = copy.deepcopy(m)
+                            follow(m2[s], path)[i] = (t, ('s', ch))
+                            yield d, m2
+                        m2 = copy.deepcopy(m)
+                        follow(m2[s], path)[i] = (t, ('s', v[1][:len(v[1]) // 2]))
+                        yield d, m2
+                        m2 = copy.deepcopy(m)
+                        follow(m2[s], path)[i] = (t, ('s', v[1][len(v[1]) // 2:]))
+                        yield d, m2
     used = {s: used_tags(m[s]) for s in ('hdr', 'body', 'trl')}
     for s in ('hdr', 'body', 'trl'):
         pruned = prune_entries(d[s], used[s])
@@ -680,8 +782,14 @@ def execute_plan(ctx, rng, plan):
             ctx.count('wf:depth%d' % fc.depth_of(d['body'] + d['hdr'] + d['trl']))
             ctx.count('wf:groups' + str(min(3, sum(fc.count_groups(m[s]) for s in m))) + ('+' if sum(fc.count_groups(m[s]) for s in m) >= 3 else ''))
             ctx.count('wf:assignment-order-' + ('dictionary' if fc.msg_groups_in_dict_order(d, m) else 'shuffled'))
+            off35 = offset_of_msgtype(d, m)
+            if dom and off35:
+                ctx.count('wf:MsgType-not-first' + ('+earlier-35=' if fc.ref_encode(d, m).find(b'35=') != off35 else ''))
+            for s_ in ('hdr', 'body', 'trl'):
+                for cls_ in text_classes(m[s_]):
+                    ctx.count(f'wf:text:{s_}:{cls_}')
             if not dom:
-                ctx.count('wf:out-of-domain(first 35= is not MsgType, or a tag used at two levels)')
+                ctx.count('wf:out-of-domain(a tag used at two levels, or no MsgType in the header)')
             got = impl_build(built, d, a, rng)
             rep = rt_replay_dict(mdefs, d, m)
             if got[0] != 'ok':
@@ -800,6 +908,7 @@ def execute_plan(ctx, rng, plan):
 def run_chunk(ctx, p):
     """one batch of generated dictionaries, in a fresh process (see fix_common.run_chunks)"""
     common.use_repo()
+    use_fix_strings()
     plan = [gen_entry(ctx.rng, p['first'] + i, p['n_msg'], p['n_mal'], p['n_dec']) for i in range(p['count'])]
     execute_plan(ctx, ctx.rng, plan)
 
@@ -807,6 +916,7 @@ def run_chunk(ctx, p):
 def run(ctx):
     rng = ctx.rng
     quick = ctx.tier == 'quick'
+    use_fix_strings()
     ctx.notes.append('implementation group equality: ' + ('plain-dict (repaired)' if eq_is_repaired() else 'OrderedDict (order sensitive, known finding)'))
     n_dict = 1200 if quick else 12000
     n_msg = 8 if quick else 12
@@ -815,7 +925,9 @@ def run(ctx):
     ctx.cov['rule'] = ('random dictionaries (header with MsgType + 0-3 entries, 1-3 message classes with 0-6 body entries, trailer 0-3; '
                        'types int/float/bool/char/string; groups nested to depth 3; tags 1-5 digits, pairwise distinct) x messages '
                        '(optional subsets, 0..7 instances, shuffled assignment order, re-assignment, negative/huge ints, repr floats, '
-                       "'=' inside strings, empty strings); distinct = distinct (dictionary, message) s-expression; plus out-of-domain "
+                       "'=' inside strings, empty strings; text values over the whole FIX value alphabet: LF, CR, CRLF, TAB, NUL and the other "
+                       "controls, DEL, blanks at either end, `35=` inside values — in header, body, trailer and group instances; headers with "
+                       "entries in front of MsgType, tags ending in 35, MsgType assigned at any position); distinct = distinct (dictionary, message) s-expression; plus out-of-domain "
                        'assignments (type errors, unknown keys, bool in int field, non-ASCII, SOH in text, instance without first field) '
                        'and mutated byte strings for the decoder — those for model/implementation agreement only')
     # ---------------- plan all cases (pure data)
